@@ -236,6 +236,11 @@ def fingerprint(relpath, names):
     return out
 
 
+class CorrespondenceBroken(Exception):
+    """the implementation no longer does something the model's tie to it relies on (e.g. it did not call the library routine
+    whose result the model is fed): not a harness error, a broken correspondence"""
+
+
 def raised_in_repo(exc):
     """the /repo frame in which (or below which, inside a library it called) the exception was raised, if the raise
     happened underneath implementation code rather than in the harness or in a harness callback; else None"""
